@@ -3,7 +3,7 @@
    calcDescriptor<X>Length: Gen/Preds.v (re-translated from descriptor.go on every run);
    Spec: Spec/DescSpec.v (body sizes from the standards as plain integers, the TLV split as a relation on bytes). *)
 From Coq Require Import ZArith List Lia.
-Require Import Base.Bits Base.Iter Base.Wr Gen.Consts Gen.Types Gen.Preds Model.Desc Spec.DescSpec Proofs.DescProofs Proofs.DescRoundTrip2 Proofs.DescRoundTrip3.
+Require Import Base.Bits Base.Iter Base.Wr Gen.Consts Gen.Types Gen.Preds Model.Desc Spec.DescSpec Spec.DvbSpec Proofs.DescProofs Proofs.DescRoundTrip2 Proofs.DescRoundTrip3 Proofs.DescRoundTrip4.
 Import ListNotations.
 Open Scope Z_scope.
 
@@ -540,4 +540,34 @@ Example C14_rt_examples2 :
 Proof.
   split; [cbv; intuition discriminate|]. split; [repeat constructor; cbv; intuition discriminate|].
   split; [cbv; intuition discriminate|]. vm_compute. reflexivity.
+Qed.
+
+(* local time offset: 1..19 items; country code of 3 bytes, 6-bit region id, both offsets whole minutes hh:mm with
+   two BCD digits each (bcd_minutes: hh 00..99, mm 00..59), time of change any second from 1900-03-01 00:00:00 to
+   2038-04-22 23:59:59 UTC (dvb_time_range: the range of the 16-bit MJD; the date arithmetic is property C15) *)
+Theorem C14_rt_local_time_offset : forall d v out rest,
+  Descriptor_Tag d = 88 -> Descriptor_LocalTimeOffset d = Some v ->
+  Forall wf_local_time_offset_item (DescriptorLocalTimeOffset_Items v) ->
+  0 < zlen (DescriptorLocalTimeOffset_Items v) < 20 ->
+  enc_descriptors_with_length [d] = Ok out -> items_bytes_ok out ->
+  parse_descriptors (new_iter (bytes_of_items out ++ rest)) =
+    Ok ([set_LocalTimeOffset (desc_hdr 88 (13 * zlen (DescriptorLocalTimeOffset_Items v))) v],
+        mk_iter (bytes_of_items out ++ rest) (4 + 13 * zlen (DescriptorLocalTimeOffset_Items v))).
+Proof. exact rt_local_time_offset. Qed.
+Print Assumptions C14_rt_local_time_offset.
+
+(* satisfiable: France, region 0, +01:00 now, +02:00 from 1993-10-13 12:45:00 UTC (the example date of EN 300 468
+   Annex C: MJD 0xC079) *)
+Definition ex_lto : DescriptorLocalTimeOffset := {| DescriptorLocalTimeOffset_Items :=
+  [ {| DescriptorLocalTimeOffsetItem_CountryCode := [70; 82; 65]; DescriptorLocalTimeOffsetItem_CountryRegionID := 0;
+       DescriptorLocalTimeOffsetItem_LocalTimeOffset := spec_duration_ns 1 0 0; DescriptorLocalTimeOffsetItem_LocalTimeOffsetPolarity := false;
+       DescriptorLocalTimeOffsetItem_NextTimeOffset := spec_duration_ns 2 0 0; DescriptorLocalTimeOffsetItem_TimeOfChange := 750516300 |} ] |}.
+Example C14_rt_local_time_offset_example :
+  Forall wf_local_time_offset_item (DescriptorLocalTimeOffset_Items ex_lto) /\
+  res_map bytes_of_items (enc_descriptors_with_length [set_LocalTimeOffset (desc_hdr 88 0) ex_lto]) =
+  Ok [240; 15; 88; 13; 70; 82; 65; 2; 1; 0; 192; 121; 18; 69; 0; 2; 0].
+Proof.
+  split; [|vm_compute; reflexivity]. repeat constructor; try (cbv; intuition discriminate).
+  - exists 1, 0. repeat split; lia.
+  - exists 2, 0. repeat split; lia.
 Qed.
